@@ -17,19 +17,10 @@ THEOREMS = ["emitDoc_neutral", "nonws_opts_invariant", "output_is_leaves", "newl
             "inside_expanded_equiv_false"]
 
 
-KEY_PANIC = "emitter:strip_comments-without-vertical_align:last_token-none-panic"
-KEY_IMPORT = "emitter:import_declaration:comment-survives-strip_comments"
-
-
 def classify(op, v):
-    p = op.split(" ")
-    if p[2] != "strip":
-        return None
-    ob = p[4].split(".")
-    if v.startswith("noemit:emitter/src/emitter.rs:") and "Option::unwrap()" in v and ob[2] == "0" and ob[4] == "1":
-        return KEY_PANIC
-    if v == "tokens=ok nocomment=BAD:import nonws=ok":
-        return KEY_IMPORT
+    """No known finding is left for C26: the two emitter defects found by this check (panic under strip_comments
+    without vertical_align — fix 954ed37; comment after a moved import surviving strip_comments — fix ce94f55) are
+    repaired in /repo, a recurrence is a VIOLATION."""
     return None
 
 
